@@ -445,6 +445,8 @@ func registerStream() {
 			longInputWorkload(map[string]int{"quick": 16, "thorough": 400}),
 			isoWorkload(map[string]int{"quick": 20000, "thorough": 400000}),
 			cliSchedWorkload(map[string]int{"quick": 1500, "thorough": 100000}),
+			// every element delivered before a read error has had its rules run, in order, exactly once
+			streamWorkload("rules-before-a-read-error", map[string]int{"quick": 40000, "thorough": 1500000}, streamGenOpts{mode: "c03", maxFiles: 2, maxVals: 5, selectors: true, faults: []string{"EIO"}, faultProb: 100, sigProb: 25}),
 		},
 	})
 	allFaults := []string{"TRUNC", "EIO", "CORRUPT", "STRAY"}
